@@ -1,1 +1,7 @@
 import SdxProofs.Field
+import SdxProofs.IntervalLemmas
+import SdxProofs.SnapLemmas
+import SdxProofs.AnonLemmas
+import SdxProofs.CounterLemmas
+import SdxProofs.FlattenLemmas
+import SdxProofs.TreeLemmas
